@@ -58,9 +58,11 @@ class Model(object):
     def __init__(self):
         self.names = {"draft%d" % d: c for d, c in DRAFTS.items()}
         self.ids = {norm(u): DRAFTS[d] for d, u in DRAFT_IDS.items()}
+        self.ever = list(DRAFTS.values())       # every class ever registered (for describing a wrong answer)
 
     def register(self, version, cls, own_id):
         self.names[version] = cls
+        self.ever.append(cls)
         if own_id:
             self.ids[norm(own_id)] = cls
 
@@ -296,12 +298,28 @@ def validate_outcome(schema, x, kw, cls=None):
     return r, bool(dep), any("schema" in str(w.message).lower() for w in dep)
 
 
-def selection_problem(obs, warned, schema_warned, exp_cls, exp_warn):
-    """obs from recorded(validator_for ...)."""
+def selection_problem(obs, warned, schema_warned, exp_cls, exp_warn, model, schema, default):
+    """obs from recorded(validator_for ...).  The problem names roles, not classes, so that one
+    defect gives one signature whichever draft it is seen on."""
     if obs[0] == "raises":
         return "exception-" + obs[1]
-    if obs[1] is not exp_cls:
-        return "selected-%s-expected-%s" % (role(obs[1]), role(exp_cls))
+    got = obs[1]
+    if got is not exp_cls:
+        if exp_warn:
+            want = "latest-draft-as-fallback"
+        elif schema is True or schema is False or "$schema" not in schema:
+            want = "the-default"
+        else:
+            want = "the-class-registered-for-the-id"
+        if default is not None and got is default:
+            seen = "the-callers-default"
+        elif got is LATEST:
+            seen = "the-latest-draft"
+        elif any(got is c for c in model.ever):
+            seen = "another-registered-class"
+        else:
+            seen = "an-unregistered-object"
+        return "selected-%s-instead-of-%s" % (seen, want)
     if exp_warn and not warned:
         return "no-DeprecationWarning"
     if not exp_warn and schema_warned:
@@ -310,21 +328,27 @@ def selection_problem(obs, warned, schema_warned, exp_cls, exp_warn):
 
 
 def check_selection(model, schema):
-    """validator_for with and without default=; -> list of (entry, problem, detail)."""
+    """validator_for with and without default=; -> list of (entry, problem, detail).
+    A default= variant that shows the same problem as the plain call, or as the other default=
+    variant, is dropped (it shrinks to it)."""
     probs = []
-    for entry, default in (("validator_for", None), ("validator_for-default=Draft3Validator", jsonschema.Draft3Validator),
-                           ("validator_for-default=sentinel", SENTINEL)):
-        if entry == "validator_for":
+    seen = set()
+    for entry, default in (("validator_for", None), ("validator_for-default", jsonschema.Draft3Validator),
+                           ("validator_for-default", SENTINEL)):
+        if default is None:
             obs, w, sw = recorded(lambda: validators.validator_for(schema))
             exp_cls, exp_warn = model.select(schema)
         else:
             obs, w, sw = recorded(lambda: validators.validator_for(schema, default=default))
             exp_cls, exp_warn = model.select(schema, default)
-        p = selection_problem(obs, w, sw, exp_cls, exp_warn)
-        if p:
-            probs.append((entry, p, {"expected_class": label(exp_cls), "expected_warning": exp_warn,
-                                     "observed": [obs[0], label(obs[1]) if obs[0] == "ok" else obs[1:]],
-                                     "warned": w}))
+        p = selection_problem(obs, w, sw, exp_cls, exp_warn, model, schema, default)
+        if p is None or p in seen:
+            continue
+        seen.add(p)
+        probs.append((entry, p, {"expected_class": label(exp_cls), "expected_warning": exp_warn,
+                                 "default": None if default is None else label(default),
+                                 "observed": [obs[0], label(obs[1]) if obs[0] == "ok" else obs[1:]],
+                                 "warned": w}))
     return probs
 
 
@@ -479,12 +503,15 @@ def malformed(sp):
 def probe_state(model, table):
     """-> list of (what, problem, detail) comparing the live registries with the model."""
     probs = []
+    broken = set()
     for sp in table:
         if malformed(sp):
             continue        # reported once by the static part (selection raises); not a registry matter
         schema = build_schema(sp, {})
         for entry, p, detail in check_selection(model, schema):
             probs.append((entry, p, dict(detail, spelling=sp)))
+            if entry == "validator_for":
+                broken.add(norm(sp) if sp != ABSENT else sp)
     live = validators.validators
     if set(live) != set(model.names) or any(live[k] is not model.names[k] for k in model.names if k in live):
         probs.append(("version-names", "names-table-differs",
@@ -492,6 +519,8 @@ def probe_state(model, table):
                        "expected": {k: label(v) for k, v in model.names.items()}}))
     # behaviour behind every id the model knows
     for key, c in sorted(model.ids.items()):
+        if key in broken:
+            continue        # validate() cannot be judged apart from a selection that is already wrong
         schema = {"$schema": key, "tag": 1, "const": 1}
         prob, detail, _ = check_validate(model, schema, "tag", 2)
         if prob:
@@ -520,7 +549,7 @@ def run_history(ops, hist, table):
 
 
 def hist_signature(ops, hist, what, problem):
-    kinds = "+".join(ops[j][1] + ("-" + str(ops[j][2]["base"]) if "base" in ops[j][2] else "") for j in hist)
+    kinds = "none" if not hist else "+".join(ops[j][1] + ("-" + str(ops[j][2]["base"]) if "base" in ops[j][2] else "") for j in hist)
     return "C20|history|%s|%s|ops=%s" % (what, problem, kinds)
 
 
@@ -628,37 +657,39 @@ def static_cases(ws, model, sp, kind, bodies, X, res, kinds):
     sel_probs = check_selection(model, build_schema(sp, {}))
     res["ev"] += 3
     res["traces"] += 3
-    blocked = False
-    base_problem = [p for entry, p, _ in sel_probs if entry == "validator_for"]
+    sel_broken = any(entry == "validator_for" for entry, _, _ in sel_probs)
     for entry, p, detail in sel_probs:
-        if entry != "validator_for" and p in base_problem:
-            continue        # shrinks to the call without default=: same failure, simpler case
+        k2 = shrink_kind(sp, kind, lambda s2: any(
+            (e, q) == (entry, p) for e, q, _ in check_selection(model, build_schema(s2, {}))))
         res["viol"].append({
-            "signature": "C20|%s|%s" % (p, kind) if entry == "validator_for" else "C20|%s|%s|%s" % (entry, p, kind),
-            "case": {"entry": entry, "schema": build_schema(sp, {})}, "detail": detail,
-            "size": len(sp)})
-        if p.startswith("exception-") and entry == "validator_for":
-            blocked = True
+            "signature": "C20|%s|%s" % (p, k2) if entry == "validator_for" else "C20|%s|%s|%s" % (entry, p, k2),
+            "case": {"entry": entry, "schema": build_schema(sp, {}), "default": detail["default"]},
+            "detail": detail, "size": len(sp)})
     oc = "select:%s" % kind
     res["outcomes"][oc] = res["outcomes"].get(oc, 0) + 1
-    if blocked:
-        res["counters"]["cases_skipped_because_selection_raised"] = \
-            res["counters"].get("cases_skipped_because_selection_raised", 0) + len(bodies) * len(X)
-        return
+    if sel_broken:
+        # validate() and the command line without an explicit class are functions of a selection
+        # that is already reported: they shrink to it.  Explicit classes are still compared.
+        res["counters"]["cases_skipped_because_selection_is_wrong"] = \
+            res["counters"].get("cases_skipped_because_selection_is_wrong", 0) + len(bodies) * (len(X) + 1)
     for lbl, body in bodies:
         if body is None:
             body = ws.body(lbl)
         schema = build_schema(sp, body)
         # validator_for on the full schema as well (the body must not matter)
-        for entry, p, detail in check_selection(model, schema):
-            res["viol"].append({"signature": "C20|%s|%s|%s|with-body" % (entry, p, kind),
-                                "case": {"entry": entry, "schema": schema}, "detail": detail,
-                                "size": len(json.dumps(schema))})
+        for entry, p, detail in ([] if sel_broken else check_selection(model, schema)):
+            if any((e, q) == (entry, p) for e, q, _ in sel_probs):
+                continue        # shows without the body already
+            res["viol"].append({"signature": "C20|%s|%s|%s|only-with-a-body" % (entry, p, kind),
+                                "case": {"entry": entry, "schema": schema, "default": detail["default"]},
+                                "detail": detail, "size": len(json.dumps(schema))})
         res["ev"] += 3
         for x in X:
             nt = draft_disagreement(schema, lbl, x)
             res["nt"] += 1 if nt else 0
             for explicit in [None] + EXPLICIT:
+                if explicit is None and sel_broken:
+                    continue
                 prob, detail, oclass = check_validate(model, schema, lbl, x, explicit)
                 res["ev"] += 1
                 res["traces"] += 1
@@ -675,6 +706,8 @@ def static_cases(ws, model, sp, kind, bodies, X, res, kinds):
         if lbl == "id-vs-$id-store":
             continue        # the command line cannot be handed a store; the file:// twin covers it
         for vname in CLI_VALIDATORS:
+            if vname is None and sel_broken:
+                continue
             kindp, detail, oclass = check_cli(model, ws, schema, lbl, vname)
             res["ev"] += 1
             res["traces"] += 1
@@ -717,7 +750,8 @@ def run_unit(unit, ctx):
                 for schema in (True, False):
                     for entry, p, detail in check_selection(model, schema):
                         res["viol"].append({"signature": "C20|%s|%s|boolean-schema" % (entry, p),
-                                            "case": {"entry": entry, "schema": schema}, "detail": detail, "size": 1})
+                                            "case": {"entry": entry, "schema": schema, "default": detail["default"]},
+                                            "detail": detail, "size": 1})
                     res["ev"] += 3
                     res["traces"] += 3
                     for x in X:
@@ -751,6 +785,7 @@ def run_unit(unit, ctx):
         table = probe_table(thorough)
         canon_seen = set()
         takeovers = 0
+        static_sp = set(kinds)
         snap0 = snapshot()
         before = [(w, p, d.get("spelling")) for w, p, d in probe_state(Model(), table)]
         for n in range(0, depth - len(prefix) + 1):
@@ -770,6 +805,8 @@ def run_unit(unit, ctx):
                 for what, problem, detail in probs:
                     if hist and (what, problem, detail.get("spelling")) in before:
                         continue        # present before any registration: reported by the empty history
+                    if not hist and what.startswith("validator_for") and detail.get("spelling") in static_sp:
+                        continue        # the static part reports exactly this probe
                     if (what, problem) in done:
                         continue
                     done.add((what, problem))
